@@ -240,6 +240,7 @@ func g8Prefix(r *Repo, rep *Report, mainFn *FuncInfo) {
 				return true
 			})
 			hasReplace, onlyKnown := false, true
+			replaceConditional := false
 			for _, d := range defs {
 				switch x := ast.Unparen(d).(type) {
 				case *ast.CallExpr:
@@ -249,6 +250,10 @@ func g8Prefix(r *Repo, rep *Report, mainFn *FuncInfo) {
 						if old != nil && constant.StringVal(old) == "derive" && n != nil {
 							if nv, _ := constant.Int64Val(n); nv == 1 {
 								hasReplace = true
+								// the substitution applies to every plugin: it is executed on every path to SetPrefix
+								if !g.posDominates(x.Pos(), setPos) {
+									replaceConditional = true
+								}
 								continue
 							}
 						}
@@ -265,6 +270,12 @@ func g8Prefix(r *Repo, rep *Report, mainFn *FuncInfo) {
 				}
 			}
 			okProv = hasReplace && onlyKnown
+			if okProv && replaceConditional {
+				okProv = false
+				rep.fail(Finding{Rule: "G8", Key: "G8|prefix-rewrite|conditional", Where: []string{r.pos(setPos)},
+					Msg: `main.main substitutes -prefix for "derive" only under a condition: for the plugins (or prefixes) the condition excludes, the default prefix stays, their calls match nothing and no function is generated for them (goderive exits 0 with an incomplete derived.gen.go)`})
+				return
+			}
 		}
 	}
 	if okProv {
@@ -750,5 +761,105 @@ func g8CallsReachAdd(r *Repo, rep *Report) {
 			Msg: "newPackage can skip a discovered call without handing it to (*pkg).Add or examining it with HasUndefined: calls written with a customised prefix can be dropped silently (goderive exits 0 and the function is never generated)"})
 	} else {
 		rep.pass("G8")
+	}
+}
+
+// g8EveryRecordedCallRegistered: in newFileInfos every call expression the finder recorded (f.calls) is turned into its own call
+// record with its own argument types: on every iteration of the loop over the finder's list, newCall is applied to that element
+// (no path round the loop skips it). Two calls with the same source text can have different argument types (method receivers,
+// parameters and shadowed locals of the same name), so registering one per text hides conflicts and leaves the others
+// pointing at a function generated for other types.
+func g8EveryRecordedCallRegistered(r *Repo, rep *Report) {
+	fi := r.lookup("derive.newFileInfos")
+	nc := r.lookup("derive.newCall")
+	if fi == nil || nc == nil {
+		rep.fail(Finding{Rule: "G8", Key: "G8|calls-recorded|missing", Kind: "undecided", Msg: "newFileInfos / newCall not found"})
+		return
+	}
+	info := fi.Pkg.TypesInfo
+	g := newGraph(fi.Decl.Body, func(*ast.CallExpr) bool { return true })
+	loops := 0
+	ast.Inspect(fi.Decl.Body, func(n ast.Node) bool {
+		var body *ast.BlockStmt
+		var over ast.Expr
+		switch x := n.(type) {
+		case *ast.RangeStmt:
+			body, over = x.Body, x.X
+		case *ast.ForStmt:
+			// for i := range / i < len(f.calls)
+			body = x.Body
+			if be, ok := x.Cond.(*ast.BinaryExpr); ok {
+				if c, ok := be.Y.(*ast.CallExpr); ok && exprStr(c.Fun) == "len" && len(c.Args) == 1 {
+					over = c.Args[0]
+				}
+			}
+		default:
+			return true
+		}
+		sel, ok := ast.Unparen(over).(*ast.SelectorExpr)
+		if !ok || sel.Sel.Name != "calls" {
+			return true
+		}
+		if t := info.TypeOf(over); t == nil || !strings.HasSuffix(t.String(), "ast.CallExpr") {
+			return true
+		}
+		loops++
+		// blocks of the loop body; a path from the body's entry to its exit (falling off the end or `continue`) must pass newCall
+		var entry *cfg.Block
+		inBody := map[*cfg.Block]bool{}
+		for _, b := range g.Blocks {
+			for _, nd := range b.Nodes {
+				if nd.Pos() >= body.Pos() && nd.End() <= body.End() {
+					inBody[b] = true
+				}
+			}
+			if (b.Kind == cfg.KindRangeBody || b.Kind == cfg.KindForBody) && b.Stmt == n.(ast.Stmt) {
+				entry = b
+				inBody[b] = true
+			}
+		}
+		if entry == nil {
+			rep.fail(Finding{Rule: "G8", Key: "G8|calls-recorded|shape", Kind: "undecided", Where: []string{r.pos(n.Pos())}, Msg: "the loop over the finder's calls has no body block in the control-flow graph"})
+			return true
+		}
+		callsNew := func(b *cfg.Block) bool {
+			return blockHas(b, func(k ast.Node) bool {
+				c, ok := k.(*ast.CallExpr)
+				return ok && callee(info, c) == nc.Fn
+			})
+		}
+		// reach the outside of the body (loop head / after the loop) without passing a newCall block
+		seen := map[*cfg.Block]bool{}
+		escaped := false
+		var walk func(b *cfg.Block)
+		walk = func(b *cfg.Block) {
+			if seen[b] || escaped {
+				return
+			}
+			seen[b] = true
+			if callsNew(b) {
+				return
+			}
+			for _, s := range b.Succs {
+				if !inBody[s] {
+					escaped = true
+					return
+				}
+				walk(s)
+			}
+		}
+		walk(entry)
+		if escaped {
+			rep.fail(Finding{Rule: "G8", Key: "G8|calls-recorded|skipped", Where: []string{r.pos(n.Pos())},
+				Msg: "newFileInfos can go round the loop over the finder's recorded calls without turning the call into a record of its own (newCall): a call that is skipped is never registered with its own argument types — two calls with the same text but different types (method receivers, parameters of the same name) are then treated as one, conflicts between them go unreported and one of them ends up calling a function generated for other types"})
+		} else {
+			rep.pass("G8")
+			rep.sample(map[string]string{"rule": "G8 every recorded call becomes a call record", "loop": r.pos(n.Pos())})
+		}
+		return true
+	})
+	rep.analysed("recorded_call_loops", loops)
+	if loops == 0 {
+		rep.fail(Finding{Rule: "G8", Key: "G8|calls-recorded|floor", Kind: "undecided", Where: []string{r.pos(fi.Decl.Pos())}, Msg: "no loop over the finder's recorded calls found in newFileInfos (confirmed by hand)"})
 	}
 }
